@@ -437,6 +437,10 @@ def _shards(tier):
                 out.append(({"tk": 0, "mf": 2, "nact": 2, "s0": s0, "a0": a0}, 300))
         out.append(({"tk": 0, "mf": 2, "nact": 1}, 300))
         out.append(({"tk": 0, "mf": 2, "nact": 0}, 300))
+        # three actions without faults where the cleanup of action 0 registers action 1 while action 2 may be pending
+        # as well (older or newer): position of a late registration in the LIFO order
+        for s0 in range(4):
+            out.append(({"tk": 0, "mf": 0, "nact": 3, "s0": s0, "a0": 0, "s1": 4}, 600))
     else:
         # (1) the quick space over the 7-behaviour alphabet (13 action types)
         for s0 in range(4):
@@ -459,7 +463,7 @@ HARNESSES = [
                          "each at one of 5 sites (setUp before/after upcall, body, tearDown, inside the cleanup of "
                          "action 0) and of 11 types (cleanup x 5 behaviours, patch of an existing / missing "
                          "attribute, fixture ok / setUp fails / cleanUp fails / nested); at most 2 faults per "
-                         "program; attribute initially absent, present, present with value None, stored in a __slots__ object, or behind a read-write property; every program is run twice on the same instance",
+                         "program; plus fault-free programs with 3 actions in which a cleanup registers a further action while a third one is pending; attribute initially absent, present, present with value None, stored in a __slots__ object, or behind a read-write property; every program is run twice on the same instance",
                 "thorough": "7-behaviour alphabet (+ expected failure, MultipleExceptions) with 0..2 actions of 13 types and fault budget 2 "
                             "(3 with <= 1 action); 3 actions over the 5-behaviour alphabet with at most 1 fault"},
         rule="one program per path; non-trivial = at least one cleanup/patch/fixture registered",
